@@ -530,6 +530,59 @@ def c21(run):
         gen_sync(run, [("1, 2", 2, 1, 0, 1, 40, 0), ("1, 2", 3, 0, 0, 2, 60, 0), ("1, 2, 3", 4, 1, 0, 3, 100, 300)], has_reconnect)
 
 
+def has_rollback(sc):
+    return any(e.get('ev') == 'rollback' and e.get('calls') for e in sc)
+
+
+def c28(run):
+    run.cov["rule"] = ("transactions of 1-4 random calls (object creation, deletes of conflicted values, text splices, "
+                       "increments, invalid calls) rolled back through Transaction::rollback, transact() with an Err closure "
+                       "and AutoCommit::rollback on prior states with conflicts, queues and several actors; heads, changes, "
+                       "queue, missing deps, actor, view digest and save() digest before = after, and the same follow-up "
+                       "edit on the rolled-back document and on a clone taken before gives a byte-identical change; "
+                       "non-trivial = scenario with a non-empty rolled-back transaction")
+    t = os.path.join(run.work, "rollback.ndjson")
+    drive(["rollback", run.seed, sizes(run, 200, 4000), t])
+    run.validate("Trace_Graph.tla", ["C28"], t, "rollback")
+    count_nontrivial(run, t, has_rollback)
+    sample_scenario(run, t, has_rollback)
+
+
+def has_iso(sc):
+    return any(e.get('ev') == 'commit' and e.get('iso') and e.get('hash') for e in sc)
+
+
+def c29(run):
+    run.cov["rule"] = ("programs in which ~30% of the transactions are transaction_at(H) for random antichains H (remote "
+                       "changes arriving in between): first read inside = Interp(ancestors(H)) (Trace_Interp), every call "
+                       "has its sequential effect on that isolated view (Trace_Seq), the change's deps = H and its actor "
+                       "continues only a history contained in H (Trace_Graph), the document afterwards = Interp(all "
+                       "applied); non-trivial = scenario with an isolated commit")
+    t = os.path.join(run.work, "iso.ndjson")
+    drive(["iso", run.seed, sizes(run, 150, 3000), t])
+    run.validate("Trace_Graph.tla", ["C29"], t, "iso-graph")
+    run.validate("Trace_Interp.tla", ["C29"], t, "iso-interp")
+    run.validate("Trace_Seq.tla", ["C29"], t, "iso-seq")
+    count_nontrivial(run, t, has_iso)
+    sample_scenario(run, t, has_iso, maxlen=8)
+
+
+def has_err(sc):
+    return any(str(e.get('res', '')).startswith('err') for e in sc) or has_failed_call(sc)
+
+
+def c06(run):
+    run.cov["rule"] = ("failing calls of every kind: apply_changes / load_incremental / merge of changes whose (actor, seq) "
+                       "is already applied, queued or duplicated in the batch (dup family), rejected transaction operations "
+                       "(docinv/seq families), fork_at of unknown heads; after each failure the applied set and queue must "
+                       "equal the specification state before the call, in-transaction views must be unchanged, and the "
+                       "document must still save and load; non-trivial = scenario with at least one failing call")
+    mc_graph(run, "MC_ChangeGraph_quick.cfg" if run.tier == "quick" else "MC_ChangeGraph_thorough.cfg")
+    graph_trace(run, ["C06"], has_err, run.cov["rule"], 100, 3000, family="dup")
+    interp_trace(run, ["C06"], "docinv", sizes(run, 100, 2000), has_err, spec="Trace_Seq.tla")
+    interp_trace(run, ["C06"], "seq", sizes(run, 100, 2000), has_err, spec="Trace_Seq.tla")
+
+
 def replay(run, path):
     """re-validate a recorded violating scenario"""
     from . import tlc_trace
@@ -549,6 +602,9 @@ REG = {
     "C01": ("model_checking", c01),
     "C03": ("model_checking", c03),
     "C07": ("model_checking", c07),
+    "C06": ("model_checking", c06),
+    "C28": ("model_checking", c28),
+    "C29": ("model_checking", c29),
     "C11": ("model_checking", c11),
     "C20": ("model_checking", c20),
     "C21": ("model_checking", c21),
